@@ -516,6 +516,12 @@ func runSchedCaseT(c *h.Ctx, r *h.Report, cs schedCase) (trace []int, disagreed 
 			pn := "-"
 			if ev.Panic != "" {
 				sr.panics = append(sr.panics, ev.Panic)
+				if ph.Ops[i].Op == "dispatch" {
+					// a publication that does not complete: whatever a subscriber does or fails to do (here: it is
+					// being disconnected) must not abort the hub's publish, nor keep the update from the subscribers behind it
+					sr.extra = append(sr.extra, h.Violation{Key: "C13:publication-aborted-by-a-subscriber-being-disconnected",
+						What: fmt.Sprintf("Dispatch of update %d panics (%s) while a subscriber is disconnected concurrently: the publication does not complete and subscribers after it in the fan-out are not served", ph.Ops[i].ID, ev.Panic)})
+				}
 				pn = ev.Panic
 				done[i] = true
 				rets[i] = "panic"
@@ -597,6 +603,14 @@ func runSchedCaseT(c *h.Ctx, r *h.Report, cs schedCase) (trace []int, disagreed 
 	rp := map[string]any{"family": "sched", "case": cs}
 	for _, p := range sr.panics {
 		r.Violate(h.Violation{Key: "C14:panic:" + p, What: "a schedule of transport/subscriber operations panics: " + p, Replay: rp})
+	}
+	if len(sr.panics) > 0 {
+		for _, v := range sr.extra {
+			if strings.HasPrefix(v.Key, "C13:publication-aborted") {
+				v.Replay = rp
+				r.Violate(v)
+			}
+		}
 	}
 	if finalObs != "" && len(sr.panics) == 0 {
 		for _, v := range schedOracles(sr, finalObs) {
